@@ -63,3 +63,17 @@ pub fn fmt_format_empty(_a: std::fmt::Arguments<'_>) -> String { String::new() }
 pub fn cpuid_none(_leaf: u32, _sub: u32) -> core::arch::x86_64::CpuidResult {
     core::arch::x86_64::CpuidResult { eax: 0, ebx: 0, ecx: 0, edx: 0 }
 }
+
+/// `core::slice::memchr::memchr` splits the haystack at `ptr.align_offset(8)` — the heap address is unknown
+/// to CBMC, so the split point is symbolic and the prefix scan unwinds to the bound for every `str::lines()`
+/// / `split('\n')` call even on concrete text. Semantically identical byte-wise scan:
+pub fn memchr_bytewise(x: u8, text: &[u8]) -> Option<usize> {
+    let mut i = 0;
+    while i < text.len() { if text[i] == x { return Some(i); } i += 1; }
+    None
+}
+pub fn memrchr_bytewise(x: u8, text: &[u8]) -> Option<usize> {
+    let mut i = text.len();
+    while i > 0 { i -= 1; if text[i] == x { return Some(i); } }
+    None
+}
